@@ -60,7 +60,100 @@ def stanza(i, direction):
                                            "pad": "x" * (1 + 37 * i % 300)}, None)
 
 
+def _slow_delivery(case, out):
+    """a delivery that outlasts its connection: the stanza that arrived with the handshake reply is still being handled by the
+    layer above (on the handshake thread) while the connection is lost, a new one is established and the next login completes with
+    stanzas queued behind its reply.  Stanzas are handled one at a time and in order - the old connection's, then the new one's"""
+    server = NoiseServer()
+    cfg = Config(phone="4915112345", cc="49", client_static_keypair=KeyPair.generate(), server_static_public=PublicKey(bytes(server.s.public.data)))
+    rig = TR.Rig(choices=case.get("choices", ()), config=cfg, server=server, preempt=case.get("preempt"))
+    try:
+        top = rig.top
+        durations = {"F0": case.get("old", 5.0), "G1": case.get("new", 10.0)}
+        done = []
+        in_progress = [0]
+        overlap = []
+        plain = top.receive
+
+        def receive(node):
+            ident = node["id"] if isinstance(node, ProtocolTreeNode) else None
+            in_progress[0] += 1
+            if in_progress[0] > 1:
+                overlap.append(ident)
+            try:
+                if ident in durations:
+                    rig.sched.sleep(durations[ident])
+                plain(node)
+                done.append(ident)
+            finally:
+                in_progress[0] -= 1
+        top.receive = receive
+        out.label("slow_delivery_across_a_reconnect")
+        def wait_until(cond):
+            # (time passes only when nothing can run: a thread that waits for the slow handler to finish gets there in the end)
+            for _ in range(80):
+                if cond():
+                    return True
+                rig.sched.advance(1.0)
+                rig.run()
+            return cond()
+        for conn, frames in ((1, ["F0"]), (2, ["G1", "G2", "G3"][:1 + case.get("n", 2)])):
+            rig.post("connect")
+            rig.run()
+            hello = [rig.take_client_bytes()]
+
+            def hello_written():
+                hello[0] += rig.take_client_bytes()
+                return len(hello[0]) > 4
+            wait_until(hello_written)
+            try:
+                server.feed(hello[0])
+            except TR.ProtocolViolation as e:
+                out.fail("handshake", "slow_delivery:server_rejects_client_bytes", {"connection": conn, "problem": str(e)})
+                return out
+            if server.state != "transport":
+                out.fail("handshake", "slow_delivery:handshake_incomplete", {"connection": conn, "server_state": server.state, "stuck": rig.stuck_tasks()})
+                return out
+            reply = bytes(server.take_out())
+            for ident in frames:
+                server.send_frame(R.encode(("receipt", {"id": ident, "type": "read"}, None)))
+            rig.deliver(reply + bytes(server.take_out()))
+            rig.run()
+            if conn == 1:
+                # the connection is lost while F0 is still being handled; the main thread delivers the announcement
+                if rig.current is not None and rig.current.up:
+                    rig.current.inbox.put(("close",))
+                rig.run()
+                for _ in range(4):
+                    if rig.detached_pending() == 0:
+                        break
+                    rig.post("loop")
+                    rig.run()
+                server.reset()
+        expected = ["F0", "G1", "G2", "G3"][:2 + case.get("n", 2)]
+        wait_until(lambda: len(done) >= len(expected) and not rig.sched.sleeping())
+        stuck = rig.stuck_tasks()
+        if stuck or rig.sched.sleeping():
+            out.fail("hang", "slow_delivery:task_blocked_forever", {"blocked": stuck, "sleeping": rig.sched.sleeping()})
+            return out
+        if overlap:
+            out.fail("order", "slow_delivery:two_stanzas_handled_at_the_same_time", {"second": overlap[:3], "finished_in_order": done})
+            return out
+        if done != expected:
+            out.fail("order", "slow_delivery:stanzas_handled_out_of_order_or_lost", {"handled": done, "expected": expected})
+            return out
+        held = [repr(l) for l in S.held_locks()]
+        if held:
+            out.fail("hang", "slow_delivery:lock_still_held", {"locks": held[:3]})
+        out.info = {"nt": True}
+        return out
+    finally:
+        rig.close()
+
+
 def run_case(case):
+    if case.get("sub") == "slow_delivery":
+        return _slow_delivery(case, Outcome())
     out = Outcome()
     server = NoiseServer()
     variant = case["variant"]
@@ -602,6 +695,18 @@ def _enum_closed_at_once_sweep(limit):
     return factory
 
 
+def _enum_slow_delivery():
+    for old, new in ((5.0, 10.0), (10.0, 2.0), (1.0, 1.0), (20.0, 0.0)):
+        for n in (1, 2):
+            yield {"sub": "slow_delivery", "old": old, "new": new, "n": n, "choices": []}
+
+
+def slow_delivery_strategy():
+    return st.builds(lambda o, n, k, pre: {"sub": "slow_delivery", "old": o, "new": n, "n": k, "choices": [], "preempt": pre},
+                     st.sampled_from([0.0, 1.0, 4.0, 5.0, 10.0, 20.0]), st.sampled_from([0.0, 1.0, 2.0, 7.0, 10.0]), st.integers(0, 2),
+                     st.lists(st.tuples(st.integers(0, 900), st.integers(0, 3)).map(list), min_size=0, max_size=3))
+
+
 def _enum_preemption_sweep(limit):
     """context bound 1, complete: one preemption at every yield point of the login (either other ready task), with server frames
     arriving in the same read as the handshake reply"""
@@ -622,10 +727,11 @@ def plan(tier):
         "enumerations": [("basic_matrix", _enum_basic), ("single_preemption_sweep", _enum_preemption_sweep(260 if quick else 700)),
                          ("eager_server_sweep", _enum_eager_sweep(260 if quick else 700)),
                          ("wire_task_sweep", _enum_wire_sweep(260 if quick else 700)),
-                         ("closed_at_once_sweep", _enum_closed_at_once_sweep(200 if quick else 600))],
-        "strategies": [("logins", case_strategy(), 60 if quick else 4000)],
+                         ("closed_at_once_sweep", _enum_closed_at_once_sweep(200 if quick else 600)),
+                         ("slow_delivery_across_a_reconnect", _enum_slow_delivery)],
+        "strategies": [("logins", case_strategy(), 60 if quick else 4000), ("slow_delivery", slow_delivery_strategy(), 20 if quick else 1500)],
         "shrink": "ddmin",
         "budget_s": 150 if quick else 1500,
     }
 
-RULE += (' Also: a server stanza of 5000..200000 bytes delivered in socket-sized reads; handshake-reply damage generated as (field, position, bit pattern), truncation or extension of a field or of the serialised message; after every reported handshake failure a further login must succeed; cut kind closed_at_once (the peer closes the connection the moment it is up, the next login follows at once) with a complete single-preemption sweep.')
+RULE += (' Also: a server stanza of 5000..200000 bytes delivered in socket-sized reads; handshake-reply damage generated as (field, position, bit pattern), truncation or extension of a field or of the serialised message; after every reported handshake failure a further login must succeed; cut kind closed_at_once (the peer closes the connection the moment it is up, the next login follows at once) with a complete single-preemption sweep; slow_delivery: a stanza that arrived with the handshake reply is still being handled by the layer above (virtual time) while the connection is lost and the next login completes with stanzas queued behind its reply - stanzas are handled one at a time and in order.')
